@@ -43,7 +43,7 @@ NN_REPS = ("nn_dup", "nn_memalias", "nn_flat", "nn_nested", "nn_method_mixed", "
            "sib_multi_plainmid", "sib_multi_plainfirst")
 REPS = ("pure", "pure_nontensor", "pure_dup", "nn_dup", "nn_memalias", "em_memalias", "jit", "nn_flat", "nn_nested", "nn_method_mixed", "nn_tied",
         "em_flat", "em_container", "em_alias", "em_nn", "em_nn_reordered", "em_mixed",
-        "sib_single", "sib_single_nn", "sib_multi", "sib_multi_shared", "sib_multi_nn", "sib_multi_plainmid", "sib_multi_plainfirst", "dual_nn_em")
+        "sib_single", "sib_single_nn", "sib_multi", "sib_multi_shared", "sib_multi_nn", "sib_multi_plainmid", "sib_multi_plainfirst", "dual_nn_em", "em_infmask")
 
 
 _SCRIPTED = {}
@@ -220,6 +220,23 @@ def build(rep, core, nlead, eff, s):
                     return [prefix + "a", prefix + "held['b']", prefix + "lst[0]"]
                 raise KeyError(methodname)
         e = D(a, b, W)
+        return Built(e.h, (), [("e", e)], ())
+
+    if rep == "em_infmask":
+        # the object also holds a tensor without grad that contains -inf (an additive mask: exp(mask) = 0), listed among its parameters
+        class E(xitorch.EditableModule):
+            def __init__(self, a, b, W):
+                self.a, self.b, self.W = a, b, W
+                self.mask = torch.full((2,), -float("inf"), dtype=a.dtype)
+
+            def h(self, *lead):
+                return core(*lead, self.a, self.b, self.W, s) + torch.exp(self.mask).sum()
+
+            def getparamnames(self, methodname, prefix=""):
+                if methodname == "h":
+                    return [prefix + "mask", prefix + "a", prefix + "b", prefix + "W"]
+                raise KeyError(methodname)
+        e = E(a, b, W)
         return Built(e.h, (), [("e", e)], ())
 
     if rep == "em_container":
